@@ -4,9 +4,9 @@
 //!
 //!   values c13-bytes <cases.ndjson> <out.ndjson> <seed>
 //!   values c13-json  <out.ndjson> <seed>
-//!   values c14       <out.ndjson> <seed> <nseeds>
+//!   values c14       <out.ndjson> <seed> <nseeds> [full]
 //!   values c15-prf   <cases.ndjson> <out.ndjson>
-//!   values c15-rej   <out.ndjson> <seed> <tier>
+//!   values c15-rej   <out.ndjson> <seed> <tier> [<cases.ndjson of c15-prf: its header gives more types>]
 use cc_conform::export::{self, Num, VTree};
 use cc_conform::{catch, quiet_panics, read_ndjson};
 use ciphercore_base::data_types::*;
@@ -552,104 +552,285 @@ fn c14_types() -> Vec<Type> {
     v.push(vector_type(3, scalar_type(INT128)));
     v
 }
-fn cmd_c14(args: &[String]) {
-    let mut out = std::io::BufWriter::new(std::fs::File::create(&args[0]).unwrap());
-    let seed: u64 = args[1].parse().unwrap();
-    let nseeds: u64 = args[2].parse().unwrap();
-    let mut rng = StdRng::seed_from_u64(seed ^ 0xC14);
-    for (ti, t) in c14_types().into_iter().enumerate() {
-        let secrets: Vec<VTree> = (0..4u32).map(|s| random_tree(&t, &mut rng, s)).collect();
-        let t3 = tuple_type(vec![t.clone(), t.clone(), t.clone()]);
-        let mut seeds_json = vec![];
-        for si in 0..nseeds {
-            let sd = seed16(seed, ti as u64 + 1, si);
-            let mut runs = vec![];
-            for sec in &secrets {
-                let sv = export::tree_to_value(sec, &t).unwrap();
-                let tv = TypedValue::new(t.clone(), sv.clone()).unwrap();
-                let secj = export::tree_json(sec, &t, Num::Limbs);
-                // TypedValue API
-                {
-                    let mut p = PRNG::new(Some(sd)).unwrap();
-                    let shared = tv.secret_share(&mut p).unwrap();
-                    let shares: Vec<Json> = tuple3(&shared.value).iter().map(|x| tj(x, &t)).collect();
-                    let mut p = PRNG::new(Some(sd)).unwrap();
-                    let parts = tv.get_local_shares_for_each_party(&mut p).unwrap();
+/// Shape sweep: leaf types by BYTE LENGTH (every residue of the length modulo 8 with 0, 1, 2, ... whole
+/// 64-bit words before it; bit arrays both byte-aligned and not), several ranks, and long leaves inside
+/// containers.  `full`: every bit length 1..=300 and more lengths per scalar type.
+fn c14_sweep_types(rng: &mut StdRng, full: bool) -> Vec<Type> {
+    let mut v = vec![];
+    // bit arrays: byte length bl, once byte-aligned and once with 1..7 bits in the last byte
+    if full {
+        for n in 1..=300u64 {
+            v.push(array_type(vec![n], BIT));
+        }
+        for n in [511u64, 513, 1000, 1016, 1025, 2047] {
+            v.push(array_type(vec![n], BIT));
+        }
+    } else {
+        let mut bls: Vec<u64> = (1..=20).collect();
+        bls.extend([23, 24, 25, 31, 32, 33, 47, 63, 64, 65, 125]);
+        for bl in bls {
+            v.push(array_type(vec![8 * bl], BIT));
+            v.push(array_type(vec![8 * (bl - 1) + rng.gen_range(1..8)], BIT));
+        }
+    }
+    for sh in [vec![5u64, 13], vec![11, 11], vec![3, 43], vec![2, 3, 20], vec![65, 1], vec![1, 129], vec![2, 2, 2, 2, 2, 2, 3], vec![7, 10]] {
+        v.push(array_type(sh, BIT));
+    }
+    // the other scalar types: lengths covering every byte length modulo 8 and modulo 16
+    for st in export::ALL_ST {
+        if st == BIT {
+            continue;
+        }
+        let ns: Vec<u64> = match (st.size_in_bits(), full) {
+            (8, false) => (1..=18).chain([23, 24, 25, 33]).collect(),
+            (8, true) => (1..=70).chain([127, 128, 129, 255]).collect(),
+            (16, false) => vec![1, 2, 4, 5, 6, 7, 8, 9, 11, 13, 16, 17],
+            (16, true) => (1..=36).chain([63, 64, 65]).collect(),
+            (32, false) => vec![1, 2, 4, 5, 6, 7, 9],
+            (32, true) => (1..=18).chain([31, 33]).collect(),
+            (64, false) => vec![1, 2, 4, 5],
+            (64, true) => (1..=9).chain([17]).collect(),
+            (_, false) => vec![1, 2],
+            (_, true) => (1..=5).collect(),
+        };
+        for n in ns {
+            v.push(array_type(vec![n], st));
+        }
+    }
+    v.push(array_type(vec![3, 5], UINT8));
+    v.push(array_type(vec![3, 3], INT16));
+    v.push(array_type(vec![1, 1], UINT128));
+    v.push(array_type(vec![5, 1, 3], INT32));
+    v.push(array_type(vec![3, 1, 1, 3], INT64));
+    // long / unaligned leaves at every nesting level
+    let lb = |rng: &mut StdRng| array_type(vec![8 * rng.gen_range(8..20) + rng.gen_range(1..8)], BIT);
+    v.push(tuple_type(vec![scalar_type(UINT8), lb(rng)]));
+    v.push(vector_type(2, lb(rng)));
+    v.push(named_tuple_type(vec![
+        ("a".into(), lb(rng)),
+        ("b".into(), tuple_type(vec![lb(rng), array_type(vec![3], INT64)])),
+    ]));
+    v.push(vector_type(3, tuple_type(vec![scalar_type(BIT), lb(rng), array_type(vec![9], UINT8)])));
+    v.push(tuple_type(vec![vector_type(2, named_tuple_type(vec![("k".into(), array_type(vec![11], INT8)), ("v".into(), lb(rng))]))]));
+    v
+}
+
+/// Leaf types grouped by their size in bits (the layouts get_evaluator_result treats as interchangeable).
+fn c14_layout_classes() -> Vec<Vec<Type>> {
+    let a = |sh: &[u64], st: ScalarType| array_type(sh.to_vec(), st);
+    vec![
+        vec![scalar_type(BIT), a(&[1], BIT), a(&[1, 1], BIT)],
+        vec![scalar_type(UINT8), scalar_type(INT8), a(&[8], BIT), a(&[1], INT8), a(&[2, 4], BIT)],
+        vec![scalar_type(UINT16), scalar_type(INT16), a(&[2], UINT8), a(&[16], BIT), a(&[1], INT16)],
+        vec![scalar_type(UINT32), scalar_type(INT32), a(&[4], UINT8), a(&[2], INT16), a(&[32], BIT), a(&[4, 8], BIT)],
+        vec![scalar_type(UINT64), scalar_type(INT64), a(&[2], UINT32), a(&[8], INT8), a(&[64], BIT), a(&[4], UINT16)],
+        vec![scalar_type(UINT128), scalar_type(INT128), a(&[2], UINT64), a(&[16], UINT8), a(&[128], BIT), a(&[2, 2], INT32)],
+        vec![a(&[3], UINT8), a(&[24], BIT), a(&[3, 1], INT8), a(&[3, 8], BIT)],
+        vec![a(&[9], UINT8), a(&[72], BIT), a(&[3, 3], INT8)],
+        vec![a(&[5], INT16), a(&[10], UINT8), a(&[80], BIT), a(&[5, 16], BIT)],
+        vec![a(&[3], INT32), a(&[6], UINT16), a(&[12], UINT8), a(&[96], BIT), a(&[3, 32], BIT)],
+        vec![a(&[3], INT64), a(&[6], UINT32), a(&[24], INT8), a(&[192], BIT), a(&[3, 64], BIT)],
+        vec![a(&[2], INT128), a(&[4], UINT64), a(&[8], INT32), a(&[256], BIT)],
+        vec![a(&[5], UINT64), a(&[10], INT32), a(&[40], UINT8), a(&[320], BIT), a(&[5, 64], BIT)],
+    ]
+}
+/// Pairs (declared type, graph type) of containers with the same tree whose leaves are drawn from the same class.
+fn c14_layout_container_pairs(rng: &mut StdRng, n: usize) -> Vec<(Type, Type)> {
+    let classes = c14_layout_classes();
+    let leaf = |rng: &mut StdRng| {
+        let c = &classes[rng.gen_range(0..classes.len())];
+        (c[rng.gen_range(0..c.len())].clone(), c[rng.gen_range(0..c.len())].clone())
+    };
+    let mut v = vec![];
+    for i in 0..n {
+        let (a, b, c) = (leaf(rng), leaf(rng), leaf(rng));
+        v.push(match i % 5 {
+            0 => (tuple_type(vec![a.0, b.0]), tuple_type(vec![a.1, b.1])),
+            1 => (vector_type(2, a.0), vector_type(2, a.1)),
+            2 => (
+                named_tuple_type(vec![("p".into(), a.0), ("q".into(), tuple_type(vec![b.0, c.0]))]),
+                named_tuple_type(vec![("p".into(), a.1), ("q".into(), tuple_type(vec![b.1, c.1]))]),
+            ),
+            // a tuple is offered for a named tuple / vector of the same tree
+            3 => (tuple_type(vec![a.0, b.0]), named_tuple_type(vec![("x".into(), a.1), ("y".into(), b.1)])),
+            _ => (tuple_type(vec![a.0.clone(), a.0, tuple_type(vec![])]), tuple_type(vec![a.1.clone(), a.1, tuple_type(vec![])])),
+        });
+    }
+    v
+}
+
+/// get_evaluator_result with a plain input `tv` (declared type dt) for a graph whose only input has type
+/// (gt, gt, gt) and is the output: once unrevealed (the share triple the graph received), once revealed.
+fn c14_ger_run(tv: &TypedValue, secj: &Json, gt: &Type) -> Json {
+    let t3 = tuple_type(vec![gt.clone(), gt.clone(), gt.clone()]);
+    let dtj = export::type_json(&tv.t);
+    let call = |reveal: bool| {
+        catch(AssertUnwindSafe(|| -> ciphercore_base::errors::Result<TypedValue> {
+            let c = create_context()?;
+            let g = c.create_graph()?;
+            let i = g.input(t3.clone())?;
+            i.set_as_output()?;
+            g.finalize()?;
+            c.set_main_graph(g)?;
+            c.finalize()?;
+            get_evaluator_result(c, vec![tv.clone()], reveal, SimpleEvaluator::new(None)?)
+        }))
+    };
+    let fail = |what: &str| {
+        json!({"api":"ger-".to_string() + what,"dt":dtj,"secret":secj,"hasshares":false,"shares":[],"parties":[],"reveal":secj,"revt":true})
+    };
+    let shared = match call(false) {
+        Ok(Ok(x)) => x,
+        other => return fail(res_of(&other)),
+    };
+    let rev = match call(true) {
+        Ok(Ok(x)) => x,
+        other => return fail(res_of(&other)),
+    };
+    let parts = match shared.value.to_vector() {
+        Ok(p) if p.len() == 3 && shared.t == t3 => p,
+        _ => return fail("shape"),
+    };
+    let shares: Vec<Json> = parts.iter().map(|x| tj(x, gt)).collect();
+    json!({"api":"ger","dt":dtj,"secret":secj,"hasshares":true,"shares":shares,"parties":[],
+        "reveal":tj(&rev.value, gt),"revt": rev.t == *gt})
+}
+
+fn c14_type_record(out: &mut impl Write, t: &Type, ti: u64, seed: u64, nseeds: u64, styles: &[u32], rng: &mut StdRng) {
+    let secrets: Vec<VTree> = styles.iter().map(|s| random_tree(t, rng, *s)).collect();
+    let t3 = tuple_type(vec![t.clone(), t.clone(), t.clone()]);
+    let failed = |api: &str, what: &str, secj: &Json| {
+        json!({"api":format!("{api}-{what}"),"secret":secj,"hasshares":false,"shares":[],"parties":[],"reveal":secj,"revt":true})
+    };
+    let mut seeds_json = vec![];
+    for si in 0..nseeds {
+        let sd = seed16(seed, ti + 1, si);
+        let mut runs = vec![];
+        for sec in &secrets {
+            let sv = export::tree_to_value(sec, t).unwrap();
+            let tv = TypedValue::new(t.clone(), sv.clone()).unwrap();
+            let secj = export::tree_json(sec, t, Num::Limbs);
+            // TypedValue API
+            {
+                let r = catch(AssertUnwindSafe(|| -> ciphercore_base::errors::Result<Json> {
+                    let mut p = PRNG::new(Some(sd))?;
+                    let shared = tv.secret_share(&mut p)?;
+                    let shares: Vec<Json> = tuple3(&shared.value).iter().map(|x| tj(x, t)).collect();
+                    let mut p = PRNG::new(Some(sd))?;
+                    let parts = tv.get_local_shares_for_each_party(&mut p)?;
                     let parties: Vec<Json> = parts
                         .iter()
                         .map(|pt| {
                             assert!(pt.t == t3);
-                            Json::Array(tuple3(&pt.value).iter().map(|x| tj(x, &t)).collect())
+                            Json::Array(tuple3(&pt.value).iter().map(|x| tj(x, t)).collect())
                         })
                         .collect();
-                    let rev = shared.secret_share_reveal().unwrap();
-                    runs.push(json!({"api":"tv","secret":secj,"hasshares":true,"shares":shares,"parties":parties,
-                        "reveal":tj(&rev.value, &t),"revt": rev.t == t}));
+                    let rev = shared.secret_share_reveal()?;
+                    Ok(json!({"api":"tv","secret":secj,"hasshares":true,"shares":shares,"parties":parties,
+                        "reveal":tj(&rev.value, t),"revt": rev.t == *t}))
+                }));
+                match r {
+                    Ok(Ok(j)) => runs.push(j),
+                    other => runs.push(failed("tv", res_of(&other), &secj)),
                 }
-                // ReplicatedShares API
-                {
-                    let mut p = PRNG::new(Some(sd)).unwrap();
-                    let rs = ReplicatedShares::secret_share_for_local_evaluation(tv.clone(), &mut p).unwrap();
-                    let tup = rs.to_tuple().unwrap();
-                    let shares: Vec<Json> = tuple3(&tup.value).iter().map(|x| tj(x, &t)).collect();
-                    let mut p = PRNG::new(Some(sd)).unwrap();
-                    let parts = ReplicatedShares::secret_share_for_parties(tv.clone(), &mut p).unwrap();
-                    let parties: Vec<Json> = parts
-                        .iter()
-                        .map(|pt| Json::Array(tuple3(&pt.to_tuple().unwrap().value).iter().map(|x| tj(x, &t)).collect()))
-                        .collect();
-                    let rev = rs.reveal().unwrap();
-                    // a sharing rebuilt from a tuple (from_tuple) reveals the same
-                    let rev2 = ReplicatedShares::from_tuple(tup).unwrap().reveal().unwrap();
-                    runs.push(json!({"api":"rs","secret":secj,"hasshares":true,"shares":shares,"parties":parties,
-                        "reveal":tj(&rev.value, &t),"revt": rev.t == t && rev2 == rev}));
-                }
-                // share_vector (one-dimensional arrays)
-                if let Type::Array(sh, st) = &t {
-                    if sh.len() == 1 {
-                        let data = match sec {
-                            VTree::Leaf(xs) => xs.clone(),
-                            _ => unreachable!(),
-                        };
-                        let mut p = PRNG::new(Some(sd)).unwrap();
-                        let r = catch(AssertUnwindSafe(|| share_vector(&mut p, &data, *st)));
-                        match r {
-                            Ok(Ok(parts)) => {
-                                let parties: Vec<Json> =
-                                    parts.iter().map(|pt| Json::Array(tuple3(pt).iter().map(|x| tj(x, &t)).collect())).collect();
-                                runs.push(json!({"api":"sv","secret":secj,"hasshares":false,"shares":[],"parties":parties,
-                                    "reveal":secj,"revt":true}));
-                            }
-                            other => {
-                                runs.push(json!({"api":"sv-".to_string() + res_of(&other),"secret":secj,"hasshares":false,"shares":[],
-                                    "parties":[],"reveal":secj,"revt":true}));
-                            }
-                        }
+            }
+            // ReplicatedShares API
+            {
+                let r = catch(AssertUnwindSafe(|| -> ciphercore_base::errors::Result<Json> {
+                    let mut p = PRNG::new(Some(sd))?;
+                    let rs = ReplicatedShares::secret_share_for_local_evaluation(tv.clone(), &mut p)?;
+                    let tup = rs.to_tuple()?;
+                    let shares: Vec<Json> = tuple3(&tup.value).iter().map(|x| tj(x, t)).collect();
+                    let mut p = PRNG::new(Some(sd))?;
+                    let parts = ReplicatedShares::secret_share_for_parties(tv.clone(), &mut p)?;
+                    let mut parties: Vec<Json> = vec![];
+                    for pt in parts.iter() {
+                        parties.push(Json::Array(tuple3(&pt.to_tuple()?.value).iter().map(|x| tj(x, t)).collect()));
                     }
+                    let rev = rs.reveal()?;
+                    // a sharing rebuilt from a tuple (from_tuple) reveals the same
+                    let rev2 = ReplicatedShares::from_tuple(tup)?.reveal()?;
+                    Ok(json!({"api":"rs","secret":secj,"hasshares":true,"shares":shares,"parties":parties,
+                        "reveal":tj(&rev.value, t),"revt": rev.t == *t && rev2 == rev}))
+                }));
+                match r {
+                    Ok(Ok(j)) => runs.push(j),
+                    other => runs.push(failed("rs", res_of(&other), &secj)),
                 }
-                // get_evaluator_result: plain input for a shared (t,t,t) graph input, output revealed
-                if si == 0 {
-                    let r = catch(AssertUnwindSafe(|| -> ciphercore_base::errors::Result<TypedValue> {
-                        let c = create_context()?;
-                        let g = c.create_graph()?;
-                        let i = g.input(t3.clone())?;
-                        i.set_as_output()?;
-                        g.finalize()?;
-                        c.set_main_graph(g)?;
-                        c.finalize()?;
-                        get_evaluator_result(c, vec![tv.clone()], true, SimpleEvaluator::new(None)?)
-                    }));
+            }
+            // share_vector (one-dimensional arrays)
+            if let Type::Array(sh, st) = t {
+                if sh.len() == 1 {
+                    let data = match sec {
+                        VTree::Leaf(xs) => xs.clone(),
+                        _ => unreachable!(),
+                    };
+                    let mut p = PRNG::new(Some(sd)).unwrap();
+                    let r = catch(AssertUnwindSafe(|| share_vector(&mut p, &data, *st)));
                     match r {
-                        Ok(Ok(rev)) => runs.push(json!({"api":"ger","secret":secj,"hasshares":false,"shares":[],"parties":[],
-                            "reveal":tj(&rev.value, &t),"revt": rev.t == t})),
-                        other => runs.push(json!({"api":"ger-".to_string() + res_of(&other),"secret":secj,"hasshares":false,"shares":[],
-                            "parties":[],"reveal":secj,"revt":true})),
+                        Ok(Ok(parts)) => {
+                            let parties: Vec<Json> =
+                                parts.iter().map(|pt| Json::Array(tuple3(pt).iter().map(|x| tj(x, t)).collect())).collect();
+                            runs.push(json!({"api":"sv","secret":secj,"hasshares":false,"shares":[],"parties":parties,
+                                "reveal":secj,"revt":true}));
+                        }
+                        other => runs.push(failed("sv", res_of(&other), &secj)),
                     }
                 }
             }
-            seeds_json.push(json!({"seed": bytes_json(&sd), "runs": runs}));
+            // get_evaluator_result: plain input for a shared (t,t,t) graph input
+            if si == 0 {
+                runs.push(c14_ger_run(&tv, &secj, t));
+            }
         }
-        writeln!(out, "{}", json!({"kind":"sh","t":export::type_json(&t),"bits":get_size_in_bits(t.clone()).unwrap(),"seeds":seeds_json})).unwrap();
+        seeds_json.push(json!({"seed": bytes_json(&sd), "runs": runs}));
+    }
+    writeln!(out, "{}", json!({"kind":"sh","t":export::type_json(t),"bits":get_size_in_bits(t.clone()).unwrap(),"seeds":seeds_json})).unwrap();
+}
+
+/// One record per graph type gt: plain inputs declared with every type dt of the same layout class.
+fn c14_layout_record(out: &mut impl Write, gt: &Type, dts: &[Type], styles: &[u32], rng: &mut StdRng) {
+    let mut runs = vec![];
+    for dt in dts {
+        for s in styles {
+            let sec = random_tree(dt, rng, *s);
+            let tv = TypedValue::new(dt.clone(), export::tree_to_value(&sec, dt).unwrap()).unwrap();
+            let secj = export::tree_json(&sec, dt, Num::Limbs);
+            runs.push(c14_ger_run(&tv, &secj, gt));
+        }
+    }
+    writeln!(out, "{}", json!({"kind":"ly","t":export::type_json(gt),"bits":get_size_in_bits(gt.clone()).unwrap(),
+        "seeds":[{"seed": [], "runs": runs}]})).unwrap();
+}
+
+fn cmd_c14(args: &[String]) {
+    let mut out = std::io::BufWriter::new(std::fs::File::create(&args[0]).unwrap());
+    let seed: u64 = args[1].parse().unwrap();
+    let nseeds: u64 = args[2].parse().unwrap();
+    let full = args.get(3).map(|x| x == "full").unwrap_or(false);
+    let mut rng = StdRng::seed_from_u64(seed ^ 0xC14);
+    let mut ti = 0u64;
+    // 1. the catalogue of types: many seeds, four kinds of secrets
+    for t in c14_types() {
+        c14_type_record(&mut out, &t, ti, seed, nseeds, &[0, 1, 2, 3], &mut rng);
+        ti += 1;
+    }
+    // 2. shape sweep: fewer seeds per shape (two secrets per seed are needed by masks_before_secret)
+    let mut rng2 = StdRng::seed_from_u64(seed ^ 0xC14_5EE9);
+    for t in c14_sweep_types(&mut rng2, full) {
+        c14_type_record(&mut out, &t, ti, seed, if full { 3 } else { 2 }, &[2, 3], &mut rng2);
+        ti += 1;
+    }
+    // 3. plain inputs declared with another type of the same layout
+    let mut rng3 = StdRng::seed_from_u64(seed ^ 0xC14_1A70);
+    let styles: &[u32] = if full { &[0, 1, 2, 3, 3] } else { &[1, 2, 3] };
+    for class in c14_layout_classes() {
+        for gt in &class {
+            c14_layout_record(&mut out, gt, &class, styles, &mut rng3);
+        }
+    }
+    for (dt, gt) in c14_layout_container_pairs(&mut rng3, if full { 200 } else { 40 }) {
+        c14_layout_record(&mut out, &gt, &[dt, gt.clone()], styles, &mut rng3);
     }
 }
 
@@ -867,6 +1048,14 @@ fn cmd_c15_rej(args: &[String]) {
         v.push(array_type(vec![5000], UINT8));
         v.push(tuple_type(vec![array_type(vec![5], BIT), vector_type(2, array_type(vec![33], UINT64)), scalar_type(BIT)]));
         v.push(named_tuple_type(vec![("a".into(), array_type(vec![3, 3], BIT)), ("b".into(), scalar_type(INT128))]));
+        // the family of output types generated by spec/PRFModel.tla (header record of the case file of c15-prf)
+        if let Some(p) = args.get(3) {
+            let cases = read_ndjson(p);
+            let header = cases.iter().find(|c| c["kind"] == "hdr").expect("header");
+            for tj in header["types"].as_array().unwrap().iter().filter(|t| t["k"] != "perm") {
+                v.push(export::type_from_json(tj));
+            }
+        }
         v
     };
     let nrep = if thorough { 8 } else { 3 };
